@@ -19,6 +19,8 @@ Bad(e) ==
     ELSE IF e.handshake_ok /\ e.disconnects < e.conns THEN "disconnect_hooks_missing"
     ELSE IF ~e.handshake_ok /\ (e.connects # 0 \/ e.disconnects # 0) THEN "hooks_for_failed_handshake"
     ELSE IF e.handshake_ok /\ e.connects # e.conns THEN "connect_hooks_count"
+    \* embedder cancellation while the peer has stopped reading: the connection ends (hooks run) without waiting for the peer
+    ELSE IF e.handshake_ok /\ e.phase = "outbound_stuck" /\ e.prompt_disconnects < e.conns THEN "disconnect_hooks_wait_for_stalled_peer"
     ELSE IF e.handshake_ok /\ ~e.present_during THEN "peer_missing_while_connected"
     ELSE IF e.present_after THEN "peer_left_in_registry"
     ELSE IF e.alias_after THEN "alias_left_in_registry"
